@@ -1250,6 +1250,8 @@ func (p *Printer) command(cmd Command, redirs []*Redirect) (startRedirs int) {
 			p.spacedToken(cmd.Op.String(), cmd.OpPos)
 			p.advanceLine(cmd.Y.Pos().Line())
 			p.stmt(cmd.Y)
+			// Such as the one in "foo | cat <<EOF # comment".
+			p.comments(cmd.Y.Comments...)
 			break
 		}
 		indent := !p.nestedBinary
@@ -1384,6 +1386,8 @@ func (p *Printer) command(cmd Command, redirs []*Redirect) (startRedirs int) {
 		}
 		if cmd.Stmt != nil {
 			p.stmt(cmd.Stmt)
+			// Such as the one in "time cat <<EOF # comment".
+			p.comments(cmd.Stmt.Comments...)
 		}
 	case *CoprocClause:
 		p.spacedString("coproc", cmd.Pos())
@@ -1393,6 +1397,7 @@ func (p *Printer) command(cmd Command, redirs []*Redirect) (startRedirs int) {
 		}
 		p.space()
 		p.stmt(cmd.Stmt)
+		p.comments(cmd.Stmt.Comments...)
 	case *LetClause:
 		p.spacedString("let", cmd.Pos())
 		for _, n := range cmd.Exprs {
